@@ -581,10 +581,9 @@ def scen_operator(ctx, model):
 
     # apply / @ / contract
     which = int(rng.integers(3))
-    if which == 2 and not (n >= 2 and nrm(EO @ Epsi) > 1e-6 * sc and
-                           ((psi.to_right and psi.qnidx == 0) or (not psi.to_right and psi.qnidx == n - 1))):
-        # contract = apply + canonicalise + compress: needs a non-vanishing product, >= 2 sites (D14)
-        # and an operand whose centre sits where canonicalise() expects it
+    if which == 2 and not (n >= 2 and nrm(EO @ Epsi) > 1e-6 * sc):
+        # contract = apply + canonicalise + compress: needs a non-vanishing product and >= 2 sites (D14); the operand's centre
+        # may sit anywhere (any gauge)
         run.count("rejected:contract-precondition")
         which = int(rng.integers(2))
     opname = ["apply", "matmul", "contract-svd"][which]
